@@ -154,6 +154,65 @@ def task_names() -> List[Dict[str, Any]]:
     return recs
 
 
+def h_residual_fixed(kind: str):
+    """fixed-constraint residual ops: per branch, the forward mixing weight equals the weight applied to its gradient"""
+
+    def h(c: Ctx) -> None:
+        import unit_scaling.functional as U
+        from ..sym.tensor import STensor
+        from .c06 import branch
+        mk = fo.SymMk(c)
+        with Session():
+            tau = c.real("tau", Fraction_(1, 1000), 1000)
+            x = mk.tensor("x", fo._lead(mk, 2), torch.float32)
+            f = branch("f")
+            if kind == "apply":
+                y = U.residual_apply(f, x, tau)
+            else:
+                r, s_ = U.residual_split(x, tau)
+                y = U.residual_add(f(r), s_, tau)
+            G = STensor.leaf("G", y.shape, y.dtype)
+            y.backward(G)
+        info = {"residual": kind}
+        fwd = {t.op: co for co, t in y.lc}
+        bwd = {("f" if t.op.startswith("vjp[f") else t.op): co for co, t in x.grad}
+        ok = set(fwd) == {"f", "leaf"} and set(bwd) == {"f", "leaf"}
+        c.oblige("structure: output = a*f(x) + b*x, gradient = a'*vjp_f + b'*G", z3.BoolVal(ok), info={**info, "claim": "resfix"})
+        if ok:
+            c.oblige("residual branch: forward weight = backward weight (true derivative)", fwd["f"] == bwd["f"], info={**info, "claim": "resfix"},
+                     tol=approx(fwd["f"], bwd["f"]))
+            c.oblige("skip branch: forward weight = backward weight (true derivative)", fwd["leaf"] == bwd["leaf"], info={**info, "claim": "resfix"},
+                     tol=approx(fwd["leaf"], bwd["leaf"]))
+            c.oblige("control: both branches weighted equally (must be sat)", fwd["f"] == fwd["leaf"], kind="control")
+
+    return h
+
+
+def replay_residual_fixed(obname: str, model: Dict[str, Any], info: Any) -> Tuple[bool, str]:
+    import unit_scaling.functional as U
+    tau = float(model.get("tau", 0.3))
+    torch.manual_seed(0)
+    x = torch.randn(4, 5, dtype=torch.float64, requires_grad=True)
+    W = torch.randn(5, 5, dtype=torch.float64)
+    f = lambda t: torch.tanh(t @ W)
+    y = U.residual_apply(f, x, tau) if info["residual"] == "apply" else U.residual_add(f(U.residual_split(x, tau)[0]), U.residual_split(x, tau)[1], tau)
+    if info["residual"] != "apply":
+        r, s_ = U.residual_split(x, tau)
+        y = U.residual_add(f(r), s_, tau)
+    g = torch.randn_like(y)
+    (gx,) = torch.autograd.grad(y, x, g)
+    x2 = x.detach().clone().requires_grad_(True)
+    d = (1 + tau * tau) ** 0.5
+    (gt,) = torch.autograd.grad((x2 + tau * f(x2)) / d, x2, g)
+    bad = not torch.allclose(gx, gt, rtol=1e-9, atol=1e-12)
+    return bad, f"residual ({info['residual']}) tau={tau!r}: autograd gradient {'differs from' if bad else 'equals'} the derivative of the computed function (max abs {(gx - gt).abs().max().item():.3g})"
+
+
+def task_residual_fixed(kind: str) -> List[Dict[str, Any]]:
+    torch.set_num_threads(1)
+    return discharge("C05", f"residual-fixed[{kind}]", h_residual_fixed(kind), replay_residual_fixed, 30, base_info={"residual": kind})
+
+
 def run(rep: Report, only: str = "") -> None:
     import unit_scaling.constraints as uc
     thorough = rep.tier == "thorough"
@@ -166,6 +225,7 @@ def run(rep: Report, only: str = "") -> None:
               (task_rule, ("to_right_grad_scale", 3, timeout))]
     tasks.append((task_unknown, ()))
     tasks.append((task_names, ()))
+    tasks += [(task_residual_fixed, ("split-add",)), (task_residual_fixed, ("apply",))]
     ops = list(fo.CONSTRAINTS) + ["silu_glu", "scaled_dot_product_attention"]
     for op in ops:
         for cfg in fo.configs(op, rep.tier):
@@ -190,6 +250,8 @@ def replay(data: Dict[str, Any]) -> Tuple[bool, str]:
         v = [r for r in recs if r.get("type") == "violation" and r["key"].endswith("/" + data["name"])]
         return bool(v), str(v or "rejected")
     info = data.get("info") or {}
+    if "residual" in info:
+        return replay_residual_fixed(data["obligation"], data["model"], info)
     if "rule" in info:
         return replay_rule(data["obligation"], data["model"], info)
     return fo.replay_functional(data["obligation"], data["model"], info)
